@@ -9,6 +9,8 @@ def main(argv=None):
     ap.add_argument("--replay", default=None)
     a = ap.parse_args(argv)
     seed = int(os.environ.get("VERIF_SEED", "0") or 0)
+    import logging
+    logging.getLogger("cij").setLevel(logging.CRITICAL)
     try:
         mod = importlib.import_module("props." + a.pid)
     except Exception:
